@@ -1,2 +1,62 @@
-(* C13 — placeholder *)
-From HC Require Import Base.
+(* C13 — replication events announce exactly the state changes that happened (pinned statements; proofs
+   in CoreFacts.v). `w_events` is the list of events sent so far, newest first. For EVERY state and input:
+   a successful non-empty append sends Upgrade then Have(old length, batch size); an accepted proof sends
+   Upgrade iff it carried an upgrade section, then Have(index,1) iff it carried a block; get of an index that
+   is not held sends exactly one Get(index) and returns None without touching core, disk or journal; clear,
+   missing_nodes, make_read_only send nothing; every refused, failed or empty call sends nothing;
+   create_proof sends nothing except the Get of its internal read of a block that is not held.
+   Partial by nature: that every subscriber receives the same sequence is a property of async_broadcast
+   (capacity 32), covered by tools/c13.py with 1-3 subscribers and < 32 undrained events. *)
+From HC Require Import Base NMap Codec Crypto FlatTree Storage Bitfield Oplog Merkle Core CoreFacts.
+
+Theorem C13_append_events : forall cr f batch c w c' w' r,
+  core_append cr f batch c w = (c', w', r) ->
+  w_events w' =
+    match r with
+    | Ok _ => match batch with
+              | [] => []
+              | _ :: _ => [EvHave (t_length (c_tree c)) (N.of_nat (length batch)) false; EvUpgrade]
+              end
+    | _ => []
+    end ++ w_events w.
+Proof. exact append_events. Qed.
+
+Theorem C13_apply_events : forall cr f pf c w c' w' r,
+  core_apply_proof cr f pf c w = (c', w', r) ->
+  w_events w' =
+    match r with
+    | Ok true => match p_block pf with Some b => [EvHave (db_index b) 1 false] | None => [] end ++
+                 match p_upgrade pf with Some _ => [EvUpgrade] | None => [] end
+    | _ => []
+    end ++ w_events w.
+Proof. exact apply_events. Qed.
+
+Theorem C13_get_events : forall i c w c' w' r,
+  core_get i c w = (c', w', r) ->
+  w_events w' = (if bf_get (c_bitfield c) i then [] else [EvGet i]) ++ w_events w /\
+  (bf_get (c_bitfield c) i = false ->
+     r = Ok None /\ c' = c /\ w_journal w' = w_journal w /\ w_disk w' = w_disk w).
+Proof. exact get_events. Qed.
+
+Theorem C13_clear_silent : forall cr f s e, silent (core_clear cr f s e).
+Proof. exact clear_events. Qed.
+
+Theorem C13_create_proof_events : forall blk h s u c w c' w' r,
+  core_create_proof blk h s u c w = (c', w', r) ->
+  w_events w' = match proof_missing_block blk h s u c w with Some i => [EvGet i] | None => [] end ++ w_events w /\
+  (forall i, proof_missing_block blk h s u c w = Some i -> r = Ok None) /\
+  c' = c /\ w_disk w' = w_disk w /\ w_journal w' = w_journal w.
+Proof. exact create_proof_events. Qed.
+
+Theorem C13_other_calls_silent : forall cr i,
+  silent (core_make_read_only cr) /\ silent (core_missing_nodes i) /\ silent (core_missing_nodes_tree i).
+Proof. intros cr i. split; [apply make_read_only_silent | apply missing_nodes_silent]. Qed.
+
+Print Assumptions C13_append_events.
+Print Assumptions C13_apply_events.
+Print Assumptions C13_get_events.
+Print Assumptions C13_clear_silent.
+Print Assumptions C13_create_proof_events.
+Print Assumptions C13_other_calls_silent.
+Print Assumptions toy_append_get_events.
+Print Assumptions toy_apply_events.
